@@ -1,8 +1,8 @@
 """Render the MagicNumbers.tla item universe: one literal item per source line, per language."""
 from __future__ import annotations
 
-SPELL = {1: "7", 2: "37", 3: "4200", 4: "3.14", 5: "0x2A", 6: "1_000_000", 7: "1e6", 8: "100_i32", 9: "250"}
-NUM = {1: 7, 2: 37, 3: 4200, 4: 3.14, 5: 42, 6: 1000000, 7: 1000000.0, 8: 100, 9: 250}
+SPELL = {1: "7", 2: "37", 3: "4200", 4: "3.14", 5: "0x2A", 6: "1_000_000", 7: "1e6", 8: "100_i32", 9: "250", 10: "0x1f4"}
+NUM = {1: 7, 2: 37, 3: 4200, 4: 3.14, 5: 42, 6: 1000000, 7: 1000000.0, 8: 100, 9: 250, 10: 500}
 EXT = {"python": "py", "typescript": "ts", "rust": "rs"}
 
 
